@@ -17,7 +17,7 @@ PROPS["C06"] = {
          "constants": {"MaxK": q(tier, 3, 5), "Dev": DEV_CURRENT, "EmitAlts": "FALSE"},
          "invariants": ["EngInAdm", "LangIsAdm", "Lifted", "OrderFree", "LangOrderFree", "Emit"],
          "forms": ["and_chain", "or_chain", "map_group", "seq_group", "not1", "all_seq", "of_seq",
-                   "all_map", "of_map", "klist", "kall", "kof", "klist_mix", "kall_mix", "kof_mix", "knot"],
+                   "all_map", "of_map", "klist", "kall", "kof", "klist_mix", "kall_mix", "kof_mix", "knot", "mx_not", "nest_and"],
          "workers": q(tier, 4, 8)},
     ],
     "gens": lambda tier: [],
@@ -70,7 +70,7 @@ PROPS["C03"] = {
          "forms": ["accepted", "rejected"], "workers": 8,
          "plan": {"tri": False, "sws": q(tier, "SOME", "ALL"), "adv": q(tier, 6, 16), "validate": True}},
     ],
-    "gens": lambda tier: [{"topic": "adv", "n": q(tier, 120, 3000)}],
+    "gens": lambda tier: [{"topic": "adv", "n": q(tier, 120, 3000)}, {"topic": "big", "n": q(tier, 4, 16)}],
     "rules": ["load_outcome", "load_panic", "opt_panic", "match_panic", "validate_panic", "ser_panic"],
     "chunk": 1500,
 }
@@ -167,8 +167,8 @@ PROPS["C08"] = {
     "title": "List quantifiers count the members the author wrote",
     "models": lambda tier: [
         {"module": "MC_Quant", "constants": {"MaxK": q(tier, 3, 5)},
-         "invariants": ["CountLaw", "Emit"],
-         "forms": ["key_plain", "key_all", "key_of", "seq_all", "seq_of", "idl_all", "idl_of"], "workers": 8},
+         "invariants": ["CountLaw", "PinnedEnough", "Emit"],
+         "forms": ["key_plain", "key_all", "key_of", "seq_all", "seq_of", "idl_all", "idl_of", "seqm_all", "seqm_of"], "workers": 8},
     ],
     "gens": lambda tier: [{"topic": "quant", "n": q(tier, 500, 10000)}],
     "rules": ["oracle", "den", "alt_fails", "load_outcome", "match_panic"],
